@@ -2,6 +2,9 @@
 #![allow(clippy::too_many_arguments)]
 
 pub mod common;
+pub mod r#gen;
+pub mod p_diff;
+pub mod p_files;
 pub mod p_merge;
 
 use common::Ctx;
@@ -12,6 +15,9 @@ pub fn dispatch(ctx: &Ctx) -> Option<i32> {
     Some(match ctx.prop() {
         "C01" => p_merge::run_c01(ctx),
         "C02" => p_merge::run_c02(ctx),
+        "C03" => p_diff::run_c03(ctx),
+        "C04" => p_files::run_c04(ctx),
+        "C05" => p_files::run_c05(ctx),
         _ => return None,
     })
 }
